@@ -305,8 +305,18 @@ fn struct_decode_must_succeed(st: &St, fin: u8) -> bool {
 
 // ---- building the crate values -----------------------------------------------------------------
 
+/// Every second header (by slot + link value) is produced by a setter HISTORY instead of directly: created with a
+/// longer all-ones body and then shrunk in place to the target through the public setter. The logical value is the
+/// same; what differs is the unused tail of the fixed-size buffer, which must not be observable (equality with the
+/// decoded set, bytes written, lengths).
 fn raw_hdr(s: usize, link: u8) -> Ipv6RawExtHeader {
-    Ipv6RawExtHeader::new_raw(IpNumber(link), &[raw_fill(s); 6]).unwrap()
+    if (s + link as usize) % 2 == 1 {
+        let mut h = Ipv6RawExtHeader::new_raw(IpNumber(link), &[0xff; 22]).unwrap();
+        h.set_payload(&[raw_fill(s); 6]).unwrap();
+        h
+    } else {
+        Ipv6RawExtHeader::new_raw(IpNumber(link), &[raw_fill(s); 6]).unwrap()
+    }
 }
 fn frag_hdr(var: u8, link: u8) -> Ipv6FragmentHeader {
     if var == 2 {
@@ -317,7 +327,13 @@ fn frag_hdr(var: u8, link: u8) -> Ipv6FragmentHeader {
 }
 fn auth_hdr(var: u8, link: u8) -> IpAuthHeader {
     let icv: &[u8] = if var == 2 { &ICV4 } else { &[] };
-    IpAuthHeader::new(IpNumber(link), AUTH_SPI[var as usize], AUTH_SEQ, icv).unwrap()
+    if (var as usize + link as usize) % 2 == 1 {
+        let mut h = IpAuthHeader::new(IpNumber(link), AUTH_SPI[var as usize], AUTH_SEQ, &[0xff; 12]).unwrap();
+        h.set_raw_icv(icv).unwrap();
+        h
+    } else {
+        IpAuthHeader::new(IpNumber(link), AUTH_SPI[var as usize], AUTH_SEQ, icv).unwrap()
+    }
 }
 
 fn build_exts(st: &St) -> Ipv6Extensions {
@@ -1694,7 +1710,7 @@ impl Check for C12 {
     }
     fn rule(&self, tier: Tier) -> String {
         format!(
-            "alphabet: Ipv6Extensions with every presence set the struct can hold (48 of the 2^6: final destination options live inside the routing struct) x fragment header (offset 0, M 0 | offset 5, M 1) x auth header (no ICV | 4 byte ICV) = 108 configurations, raw extension payloads 6 bytes filled with a slot-specific byte, \
+            "alphabet: Ipv6Extensions with every presence set the struct can hold (48 of the 2^6: final destination options live inside the routing struct) x fragment header (offset 0, M 0 | offset 5, M 1) x auth header (no ICV | 4 byte ICV) = 108 configurations, raw extension payloads 6 bytes filled with a slot-specific byte (every second raw / auth header is produced by a setter history - longer all-ones body, then shrunk in place - instead of directly: the unused tail of the fixed-size buffers must not be observable), \
              x next_header of every present header in V x first header in V, V = {:?} (the 5 extension numbers the crate follows + UDP, NoNextHeader, Mobility{}); Ipv4Extensions (no auth | auth without/with ICV) x auth.next_header in V x protocol in V; complete product, no sampling. \
              walkers on every state: header_len, is_fragmenting_payload, is_empty, next_header(first), write(first), from_slice(first, written bytes), Ipv6ExtensionsSlice::from_slice + iterator, set_next_headers(n) for n in {:?} directly and through IpHeaders::set_next_headers / NetHeaders::try_set_next_headers, \
              IpHeaders::{{next_header, write, header_len, from_slice, is_fragmenting_payload}} and NetHeaders::header_len around the same value; every value produced by set_next_headers from polluted links gets the same walkers; \
